@@ -222,8 +222,21 @@ Definition spec_ok (c : cfg) (h : list event) (o : obs) : bool :=
       end
   end.
 
+Definition msg_eqb (a b : msg) : bool :=
+  Bool.eqb (m_coord a) (m_coord b) && N.eqb (m_sender a) (m_sender b) && N.eqb (m_op a) (m_op b)
+  && (m_block a =? m_block b) && N.eqb (m_wallet a) (m_wallet b) && (m_action a =? m_action b)
+  && N.eqb (m_pid a) (m_pid b).
+(* proposal identities identify messages: two messages of the active phase carrying the same
+   proposal object are retransmissions of each other *)
+Fixpoint pids_ok (l : list msg) : bool :=
+  match l with
+  | [] => true
+  | m :: t => forallb (fun x => negb (N.eqb (m_pid x) (m_pid m)) || msg_eqb x m) t && pids_ok t
+  end.
+
 Definition well_formed (c : cfg) (h : list event) : bool :=
   has_timeout h
+  && pids_ok (active h)
   && (Nat.leb (length (f_seats c)) 255)
   && forallb (fun s => negb (N.eqb s 0)) (f_seats c)
   && forallb (fun e => match e with Msg m => N.ltb (m_sender m) 256 | Timeout => true end) h.
